@@ -63,6 +63,14 @@ def replay_post(design, passname, postfn):
 
 
 def run(ctx):
+    import contracts.passes     # noqa: F401
+    from pyvc.contract import REGISTRY
+    from pyvc import run as prun
+    cs = [c for c in REGISTRY.values() if 'C09' in c.props]
+    prun.run_contracts(ctx, cs, 'contracts.passes')
+    ctx.assume('nand_synth / and_inverter_synth rule contracts: one-bit operands (synthesized netlists), builder '
+               'model of contracts/wiremodel.py; transform.all_nets / net_transform glue (remove the original net '
+               'when the rule returns a falsy value) covered by the bounded family')
     fam = designs.family(ctx.tier, ctx.seed)
     k = 2 if ctx.tier == 'quick' else 3
     tasks = []
@@ -88,6 +96,8 @@ def run(ctx):
     passcheck.run_family(ctx, 'C09.pass_equiv', tasks, FUNCS,
                          'lowering pass changed behaviour, interface, well-formedness or missed its postcondition')
     ctx.assume('z3 soundness; spec/netsem.py is the reading of the LogicNet docstring')
-    return ctx.finish('other', './check C09', ['z3', 'spec/netsem.py', 'elab/n2smt.py'],
-                      'bounded stand-in: real passes per design; equivalence by SMT for all '
+    return ctx.finish('other', './check C09', ['z3', 'pyvc', 'spec/netsem.py', 'elab/n2smt.py'],
+                      'P: every rewrite rule of nand_synth / and_inverter_synth drives the destination with the '
+                      'documented value of the replaced net using only the target gate set (one-bit wires, all '
+                      'values); bounded stand-in: real passes per design; equivalence by SMT for all '
                       'inputs/states; structural postconditions evaluated on the result')
